@@ -57,6 +57,60 @@ def run(ctx, chk):
     Q.rule_push(chk, "T7", None)
     Q.rule_constructors(chk, "T7")
     Q.who_may(chk, "T7")
+    b, res = rule_exhaustion(ctx, chk, L)
+    fn = b.defp
+    rule_drain(ctx, chk, L, "T3")
+    # ---------------- T8 no panic in the closure of match_order
+    from .c18 import static_sites
+    from .c05 import rule_arith_guards
+    allowed = {("match_against", "assert:overflow:Sub"), ("match_against", "assert:overflow:Add"),
+               ("record_execution", "assert:overflow:Mul"), ("new", "call:expect")}
+    reach8 = ctx.cg.reach([b.defp])
+    n8 = 0
+    own_sites = set()
+    EXPLICIT_PANICS = {"call:assert_failed", "call:panic_fmt", "call:panic", "call:panic_explicit", "call:unreachable", "call:panic_display", "call:begin_panic"}
+    for d in sorted(reach8):
+        bd = ctx.db.bodies[d]
+        owner = bd
+        while owner.kind == "Closure" and owner.parent in ctx.db.bodies:
+            owner = ctx.db.bodies[owner.parent]
+        for bb, kind, text, span in static_sites(ctx.db, bd):
+            n8 += 1
+            if kind in EXPLICIT_PANICS:
+                continue        # assert! / debug_assert! / panic!: the developer's own statement of an invariant, taken as such
+            if owner.defp == b.defp:
+                own_sites.add((d, bb, kind, span))
+                continue        # match_order's own arithmetic: discharged on its paths below
+            okk = (owner.name, kind) in allowed and (owner.name != "new" or "Transaction" in (owner.impl_self or ""))
+            chk.require(okk, "T8", "%s:%s" % (owner.defp, kind), span,
+                        "%s in %s is reachable from match_order: a match request could panic instead of returning" % (kind, owner.defp))
+    chk.require(n8 >= 10, "T8", "sites-found", b.span, "only %d panic-capable sites found in the closure of match_order" % n8)
+    rule_arith_guards(ctx, chk, "T8")
+    # match_order's own checked arithmetic (e.g. inside a debug_assert condition): on every path that reaches it the
+    # operation cannot overflow - a - b under b <= a, or a + b that reduces to a single unsigned quantity (q + (rem - q))
+    from ..terms import linsys_from_facts, prove_nonneg
+    for r in res:
+        for e in r.events("assert"):
+            _, msg, ops, site8, nf, span, cond, expected = e
+            if not site8 or site8[-1][0] != b.defp or not msg.startswith("overflow"):
+                continue
+            ok8, why8 = False, "no rule applies"
+            if "Sub" in msg and len(ops) == 2:
+                ok8, why8 = prove_nonneg(affine(ops[0]).add(affine(ops[1]), -1), r.facts)
+            elif "Add" in msg and len(ops) == 2:
+                red = linsys_from_facts(r.facts).reduce(affine(ops[0]).add(affine(ops[1])))
+                ok8 = red.is_const() and red.k < 2 ** 63 or (len(red.c) == 1 and list(red.c.values())[0] == 1 and red.k <= 0)
+                why8 = "sum is %r" % red
+            chk.require(ok8, "T8", "%s:%s:own" % (b.defp, msg), span, "%s in match_order itself is not guarded on this path: %s" % (msg, why8), describe_path(r))
+    for d8, bb8, kind8, span8 in sorted(own_sites):
+        if not kind8.startswith("assert:overflow"):
+            chk.fail("T8", "%s:%s" % (b.defp, kind8), span8, "%s in match_order itself: a match request could panic instead of returning" % kind8)
+    Q.rule_pop(chk, "T4", "T4", "T4", seq=True)
+
+
+def rule_exhaustion(ctx, chk, L):
+    """T0/T1/T2/T6 over match_order's paths: exits only with nothing remaining or after the queue reported empty, every
+    iteration makes progress, parked orders display nothing (shared with C08's draining-match sentence)"""
     b, res, stats = L.paths("match_order")
     fn = b.defp
     chk.stats["paths"] = len(res)
@@ -130,53 +184,7 @@ def run(ctx, chk):
                             "an order displaying %s (not provably 0) is parked for the rest of the call: the match may return with quantity "
                             "remaining while that order still shows quantity (%s)" % (short(d2), why), describe_path(r))
     chk.require(n_iter >= 4 and n_exit >= 2, "T0", fn + ":shape", b.span, "match loop: %d iteration paths, %d exit paths" % (n_iter, n_exit))
-    rule_drain(ctx, chk, L, "T3")
-    # ---------------- T8 no panic in the closure of match_order
-    from .c18 import static_sites
-    from .c05 import rule_arith_guards
-    allowed = {("match_against", "assert:overflow:Sub"), ("match_against", "assert:overflow:Add"),
-               ("record_execution", "assert:overflow:Mul"), ("new", "call:expect")}
-    reach8 = ctx.cg.reach([b.defp])
-    n8 = 0
-    own_sites = set()
-    EXPLICIT_PANICS = {"call:assert_failed", "call:panic_fmt", "call:panic", "call:panic_explicit", "call:unreachable", "call:panic_display", "call:begin_panic"}
-    for d in sorted(reach8):
-        bd = ctx.db.bodies[d]
-        owner = bd
-        while owner.kind == "Closure" and owner.parent in ctx.db.bodies:
-            owner = ctx.db.bodies[owner.parent]
-        for bb, kind, text, span in static_sites(ctx.db, bd):
-            n8 += 1
-            if kind in EXPLICIT_PANICS:
-                continue        # assert! / debug_assert! / panic!: the developer's own statement of an invariant, taken as such
-            if owner.defp == b.defp:
-                own_sites.add((d, bb, kind, span))
-                continue        # match_order's own arithmetic: discharged on its paths below
-            okk = (owner.name, kind) in allowed and (owner.name != "new" or "Transaction" in (owner.impl_self or ""))
-            chk.require(okk, "T8", "%s:%s" % (owner.defp, kind), span,
-                        "%s in %s is reachable from match_order: a match request could panic instead of returning" % (kind, owner.defp))
-    chk.require(n8 >= 10, "T8", "sites-found", b.span, "only %d panic-capable sites found in the closure of match_order" % n8)
-    rule_arith_guards(ctx, chk, "T8")
-    # match_order's own checked arithmetic (e.g. inside a debug_assert condition): on every path that reaches it the
-    # operation cannot overflow - a - b under b <= a, or a + b that reduces to a single unsigned quantity (q + (rem - q))
-    from ..terms import linsys_from_facts, prove_nonneg
-    for r in res:
-        for e in r.events("assert"):
-            _, msg, ops, site8, nf, span, cond, expected = e
-            if not site8 or site8[-1][0] != b.defp or not msg.startswith("overflow"):
-                continue
-            ok8, why8 = False, "no rule applies"
-            if "Sub" in msg and len(ops) == 2:
-                ok8, why8 = prove_nonneg(affine(ops[0]).add(affine(ops[1]), -1), r.facts)
-            elif "Add" in msg and len(ops) == 2:
-                red = linsys_from_facts(r.facts).reduce(affine(ops[0]).add(affine(ops[1])))
-                ok8 = red.is_const() and red.k < 2 ** 63 or (len(red.c) == 1 and list(red.c.values())[0] == 1 and red.k <= 0)
-                why8 = "sum is %r" % red
-            chk.require(ok8, "T8", "%s:%s:own" % (b.defp, msg), span, "%s in match_order itself is not guarded on this path: %s" % (msg, why8), describe_path(r))
-    for d8, bb8, kind8, span8 in sorted(own_sites):
-        if not kind8.startswith("assert:overflow"):
-            chk.fail("T8", "%s:%s" % (b.defp, kind8), span8, "%s in match_order itself: a match request could panic instead of returning" % kind8)
-    Q.rule_pop(chk, "T4", "T4", "T4", seq=True)
+    return b, res
 
 
 def rule_drain(ctx, chk, L, rid):
